@@ -26,6 +26,8 @@
                        `sound` covers the `vconv` / `join` statements
     untied_from_unsound / untied_from_parts_unsound
                        without it (one fresh output lifetime) a well-typed program reads freed memory
+    hand_impls_ok      every hand-written `unsafe impl Send/Sync` in the crate requires the auto trait of every type parameter
+                       the type stores a value of (table level only: these types are not objects of the calculus)
     conversions_do_not_weaken   a settings conversion that passes the extracted const assertions keeps the
                        direction, does not lower the minimum alignment on a borrow or on a scope, does not
                        upgrade guaranteed-allocated and does not change claimable on a borrow — for all settings
@@ -102,6 +104,14 @@ theorem sound_target_fails : ¬ sound_target := by
 
 /-- without that implementor the same program is rejected -/
 example : verdict table ⟨true, true⟩ c04a_witness = some (2, .notApplicable) := by decide
+
+/-- every hand-written `unsafe impl Send/Sync` of the crate bounds every type parameter the type stores a value of (the
+    allocator parameter of `mut_bump_vec::IntoIter<T, A>`, of `Bump<A, S>`, the element type of the boxes and vectors) -/
+theorem hand_impls_ok : handImplsAdequate Gen.Sigs.table = true := by decide
+
+/-- … and dropping the `A: Send` bound of `mut_bump_vec::IntoIter` (seed C04-f) is not adequate -/
+example : handImplsAdequate { table with handImpls :=
+    [⟨.send, "mut_bump_vec::IntoIter", [("T", .send)], ["T", "A"], "mut_bump_vec/into_iter.rs"⟩] } = false := by decide
 
 /-! ### conversions between lifetime-carrying values -/
 
